@@ -9,9 +9,20 @@
     `recEnd t`  — `t` is empty or starts with `>` (what may follow a record)
   The full statement of the property holds on the current tree (with repair 646f789); there is
   no `_partial` theorem and no known finding for C17.
+
+  AUTO-DETECTION WITH THE REAL GenBank READER (section "the real auto scanner" below; model
+  `Gts/Model/AutoScan.lean`, lemmas `Gts/Lemmas/FastaAuto.lean`, `FastaAutoMixed.lean`):
+  `Gts.Fasta.scanFirstAuto` stands in "fails in place unless the input begins with LOCUS" for
+  `GenBankParser`.  `genbankParser_rejects_fasta` proves that of the real reader model
+  `Gts.GenBank.genbankParser` (every state, every registry), `auto_real_eq_standin` discharges the
+  stand-in, the `…_real` theorems restate the stream theorems for `Gts.Auto.scanAll`, and
+  `scan_auto_sticks_to_first_format`, `scan_genbank_then_fasta`, `scan_fasta_then_genbank` say what the
+  scanner does with a stream that changes format.
 -/
 import Gts.Lemmas.Fasta
 import Gts.Bridge.FastaWrite
+import Gts.Lemmas.FastaAutoMixed
+import Gts.Spec.CliWriters
 namespace Gts.C17
 open Gts Gts.Pars Gts.Fasta
 
@@ -295,5 +306,302 @@ theorem gen_genbank_to_fasta (auto : Bool) (gbf : Gen.GbFields.GenBankFields) (b
 /-- non-vacuity: a description on one line, residues without `>`, the next record behind; a sliced record -/
 example : descOk [105, 100] = true ∧ resOk (List.replicate 71 65) = true ∧ recEnd [62, 120, 10] = true ∧
     noCR (fastaDescOfGenBank [86] [100, 10, 101] (some (2, 9))) = true := by decide +kernel
+
+/-! ### the real auto scanner (`seqio.NewAutoScanner` with the whole GenBank reader) -/
+
+open Gts.Auto (Rec Out faRecs startsLocus) in
+/-- **`GenBankParser` rejects FASTA input in place.**  On every input that does not begin with the five
+bytes `LOCUS` — every FASTA text, which begins with `>`, and the empty input — the real reader model
+`genbankParser` FAILS (no panic), consumes nothing and leaves the stack of saved positions exactly
+as it found it; from every parser state (the fresh one of a scanner included) and for every
+qualifier registry.  (`genbankLocusParser`'s first literal fails; `Seq` and `Map` pop their two frames.) -/
+theorem genbankParser_rejects_fasta (reg : GenBank.Registry) (s : PS)
+    (h : startsLocus s.rest = false) :
+    (GenBank.genbankParser reg).run' s = (.error .fail, s) :=
+  Auto.genbankParser_not_locus reg s h
+
+/-- … in particular on a text whose first byte is `>`, from the initial state of a scanner and from
+the state the auto scanner's `Push` makes -/
+theorem genbankParser_rejects_gt (reg : GenBank.Registry) (t : Bytes) (stk : List Bytes) :
+    (GenBank.genbankParser reg).run' ⟨62 :: t, stk⟩ = (.error .fail, ⟨62 :: t, stk⟩) :=
+  Auto.genbankParser_not_locus reg ⟨62 :: t, stk⟩ rfl
+
+/-- non-vacuity: `>a`, `LOCU`, `xLOCUS` and the empty input do not begin with `LOCUS`; `LOCUS X` does -/
+example : Auto.startsLocus [62, 97] = false ∧ Auto.startsLocus [76, 79, 67, 85] = false ∧
+    Auto.startsLocus [120, 76, 79, 67, 85, 83] = false ∧ Auto.startsLocus [] = false ∧
+    Auto.startsLocus [76, 79, 67, 85, 83, 32, 88] = true := by decide
+
+open Gts.Auto (Rec Out faRecs startsLocus) in
+/-- **The stand-in is discharged.**  For every text that does not begin with `LOCUS` and every
+registry, the auto scanner with the REAL GenBank reader (`Gts.Auto.scanAll`: `Push`, `GenBankParser`,
+`Pop`, `Push`, `FastaParser`, `Drop`, then `FastaParser` for every later `Scan`) returns exactly what the
+stand-in model `scanAll true` returns: the same FASTA records in the same order, the same `Err()`
+verdict, the registry untouched — and the stand-in's answer is a `done`, never `unmodelled` or a panic. -/
+theorem auto_real_eq_standin (reg : GenBank.Registry) (text : Bytes) (h : startsLocus text = false) :
+    ∃ rs c, scanAll true text = .done rs c ∧ Auto.scanAll reg text = .done (faRecs rs) reg c :=
+  Auto.scanAll_not_locus reg text h
+
+/-- a written stream never begins with `LOCUS` (it is empty or begins with `>`) -/
+theorem writeAll_not_locus (rs : List (Bytes × Bytes)) :
+    Auto.startsLocus (writeAll rs) = false ∧ Auto.startsLocus (crlf (writeAll rs)) = false := by
+  cases rs with
+  | nil => exact ⟨rfl, rfl⟩
+  | cons p rs =>
+    have e : writeAll (p :: rs) = 62 :: (nl2sp p.1 ++ 10 :: wrapForce p.2 width ++ [10] ++ writeAll rs) := by
+      simp [writeAll, fastaWrite]
+    rw [e]
+    have e2 : ∀ t : Bytes, crlf (62 :: t) = 62 :: crlf t := fun t => by simp [crlf]
+    rw [e2]
+    exact ⟨rfl, rfl⟩
+
+open Gts.Auto (Rec Out faRecs) in
+/-- **N records read back as the same N records — real auto scanner.**  `scan_write_all` with the
+stand-in replaced by the real GenBank reader: for every registry and every stream of records in the
+property's domain (every count, 0 included) `seqio.NewAutoScanner` returns the records in order as
+`seqio.Fasta` values, `Err()` is `nil`, and the qualifier registry is unchanged. -/
+theorem scan_write_all_real (reg : GenBank.Registry) (rs : List (Bytes × Bytes)) (h : recsOk rs = true) :
+    Auto.scanAll reg (writeAll rs) = .done (faRecs rs) reg true := by
+  obtain ⟨rs', c, h1, h2⟩ := auto_real_eq_standin reg _ (writeAll_not_locus rs).1
+  rw [scan_write_all true rs h] at h1
+  injection h1 with h3 h4
+  rw [h2, ← h3, ← h4]
+
+open Gts.Auto (Rec Out faRecs) in
+/-- **CRLF streams — real auto scanner** (`scan_write_all_crlf` with the real GenBank reader) -/
+theorem scan_write_all_crlf_real (reg : GenBank.Registry) (rs : List (Bytes × Bytes))
+    (h : recsOk rs = true) :
+    Auto.scanAll reg (crlf (writeAll rs)) = .done (faRecs rs) reg true := by
+  obtain ⟨rs', c, h1, h2⟩ := auto_real_eq_standin reg _ (writeAll_not_locus rs).2
+  rw [scan_write_all_crlf true rs h] at h1
+  injection h1 with h3 h4
+  rw [h2, ← h3, ← h4]
+
+open Gts.Auto (Rec Out faRecs) in
+/-- **descriptions with line feeds — real auto scanner** (`scan_write_all_nl` with the real GenBank reader) -/
+theorem scan_write_all_nl_real (reg : GenBank.Registry) (rs : List (Bytes × Bytes))
+    (h : (rs.all fun p => noCR p.1 && resOk p.2) = true) :
+    Auto.scanAll reg (writeAll rs) = .done (faRecs (rs.map fun p => (nl2sp p.1, p.2))) reg true := by
+  obtain ⟨rs', c, h1, h2⟩ := auto_real_eq_standin reg _ (writeAll_not_locus rs).1
+  rw [scan_write_all_nl true rs h] at h1
+  injection h1 with h3 h4
+  rw [h2, ← h3, ← h4]
+
+open Gts.Auto (Rec Out faRecs) in
+/-- **GenBank → FASTA, read back by the real auto scanner** (`genbank_to_fasta` with the real GenBank
+reader): the text `FastaWriter.WriteSeq` writes for a GenBank record is read back by
+`seqio.NewAutoScanner` as ONE `seqio.Fasta` value with the record's residues and the description
+`version[:head+1-tail] definition` (line feeds as blanks) — it is not mistaken for a GenBank file. -/
+theorem genbank_to_fasta_real (reg : GenBank.Registry) (version definition bytes : Bytes)
+    (region : Option (Int × Int))
+    (hd : noCR (fastaDescOfGenBank version definition region) = true) (hr : resOk bytes = true) :
+    ∃ text, fastaWriteSeq (.generic (.genbank version definition region) bytes) = some text ∧
+      Auto.scanAll reg text =
+        .done [.fa (nl2sp (fastaDescOfGenBank version definition region)) bytes] reg true := by
+  refine ⟨_, rfl, ?_⟩
+  have := scan_write_all_nl_real reg [(fastaDescOfGenBank version definition region, bytes)]
+    (by simp [hd, hr])
+  simpa [writeAll, faRecs] using this
+
+open Gts.Auto (Rec Out) in
+/-- **GenBank → FASTA — the code of the tree, read back by the real auto scanner** (`gen_genbank_to_fasta`
+with the real GenBank reader in front of `FastaParser`) -/
+theorem gen_genbank_to_fasta_real (reg : GenBank.Registry) (gbf : Gen.GbFields.GenBankFields) (bytes : Bytes)
+    (hd : noCR (Gen.GbFields.genBankFieldsString itoaBytes gbf) = true) (hr : resOk bytes = true) :
+    ∃ text, Gen.FastaWrite.fastaWriterWriteSeq Bridge.wrapForceModel
+        (.other (.stringer (Gen.GbFields.genBankFieldsString itoaBytes gbf)) bytes) = some text ∧
+      Auto.scanAll reg text =
+        .done [.fa (nl2sp (Gen.GbFields.genBankFieldsString itoaBytes gbf)) bytes] reg true := by
+  rw [Bridge.fastaWriterWriteSeq_genbank]
+  rw [Bridge.genBankFieldsString_eq] at hd ⊢
+  exact genbank_to_fasta_real reg gbf.Version gbf.Definition bytes gbf.Region hd hr
+
+/-- non-vacuity of the `…_real` theorems on concrete data: the default registry, an empty record and a
+71-residue record; the summary lists (is GenBank, length) per record and the `Err() == nil` verdict -/
+example : (Auto.scanAll GenBank.Registry.default (writeAll [([100], []), ([101], List.replicate 71 65)])).summary =
+    some ([(false, 0), (false, 71)], true) := by decide +kernel
+
+/-! ### streams that change format: the parser is chosen once -/
+
+open Gts.Auto (Rec Out) in
+/-- **The auto scanner never panics**, for every byte string and every registry (`Push` / `Drop` /
+`Pop` of the scanner around `GenBankParser_nopanic` and `parse_never_panics`). -/
+theorem scan_auto_never_panics (reg : GenBank.Registry) (text : Bytes) :
+    Auto.scanAll reg text ≠ .panic :=
+  Auto.scanFirst_ne_panic reg ⟨text, []⟩ trivial
+
+open Gts.Auto (Rec Out) in
+/-- **The auto scanner sticks to the format of the first record.**  `Scanner.Scan` chooses its
+parser ONCE — the first of `GenBankParser`, `FastaParser` that accepts the first record, there is no
+peeking and no re-detection — so for every byte string and every registry the scan ends with a list
+of records of ONE kind: when `GenBankParser` accepts the first record (run on the state the scanner's
+`Push` made) every record returned is a `seqio.GenBank` (at least that one); when it does not, every
+record returned is a `seqio.Fasta` and the qualifier registry is untouched. -/
+theorem scan_auto_sticks_to_first_format (reg : GenBank.Registry) (text : Bytes) :
+    ∃ rs rg c, Auto.scanAll reg text = .done rs rg c ∧
+      match ((GenBank.genbankParser reg).run' ⟨text, [text]⟩).1 with
+      | .ok _ => rs.all Rec.isGb = true ∧ rs ≠ []
+      | .error _ => rs.all Rec.isFa = true ∧ rg = reg :=
+  Auto.scanFirst_sticks reg ⟨text, []⟩ trivial
+
+open Gts.Auto (Rec Out startsLocus) in
+/-- **With `GenBankParser` kept, a `Scan` in front of anything but a LOCUS line fails.**  Whatever
+is left of the input, if it is not empty and does not begin with `LOCUS` (a FASTA record, for one),
+the next `Scan` returns false with `Err() != nil`; nothing is consumed and nothing registered. -/
+theorem gb_scan_stops_at_fasta (fuel : Nat) (reg : GenBank.Registry) (s : PS)
+    (hne : s.rest.isEmpty = false) (h : startsLocus s.rest = false) :
+    Auto.gbLoop (fuel + 1) reg s = .done [] reg false :=
+  Auto.gbLoop_stops fuel reg s hne h
+
+open Gts.Auto (Rec Out startsLocus) in
+/-- **GenBank record, then FASTA.**  If `GenBankParser` reads the record `r` from the front of the
+text and stops in front of `f` — `f` not empty and not beginning with `LOCUS`: the `>` of a FASTA
+record — then the auto scanner returns exactly that one GenBank record and ends with an ERROR
+(`Err() != nil`): the FASTA records behind it are not read (and not silently dropped either). -/
+theorem scan_genbank_then_fasta (reg reg' : GenBank.Registry) (g f : Bytes) (r : GenBank.Record)
+    (stk' : List Bytes) (hf : f.isEmpty = false) (hl : startsLocus f = false)
+    (hg : (GenBank.genbankParser reg).run' ⟨g ++ f, [g ++ f]⟩ = (.ok (r, reg'), ⟨f, stk'⟩)) :
+    Auto.scanAll reg (g ++ f) = .done [.gb r] reg' false := by
+  have hne : (PS.mk (g ++ f) []).rest.isEmpty = false := by
+    show (g ++ f).isEmpty = false
+    cases g with
+    | nil => exact hf
+    | cons c g => rfl
+  have := Auto.scanFirst_first_ok reg reg' ⟨g ++ f, []⟩ ⟨f, stk'⟩ r hne hg
+  unfold Auto.scanAll
+  rw [this]
+  show (Auto.gbLoop (f.length + 1) reg' ⟨f, stk'.drop 1⟩).cons (.gb r) = _
+  rw [Auto.gbLoop_stops f.length reg' ⟨f, stk'.drop 1⟩ hf hl]
+  rfl
+
+/-- a minimal GenBank record (`LOCUS` line and `//`) -/
+def miniGenBank : Bytes :=
+  GenBank.bs "LOCUS       X                  0 bp    DNA     linear   UNA 01-JAN-2000\n//\n"
+
+/-- non-vacuity of `scan_genbank_then_fasta` and of the GenBank case of
+`scan_auto_sticks_to_first_format`: a GenBank record followed by the FASTA record `>a / AC` scans as
+one GenBank record and an error; two GenBank records scan as two, without error -/
+example : (Auto.scanAll GenBank.Registry.default (miniGenBank ++ [62, 97, 10, 65, 67, 10])).summary =
+      some ([(true, 0)], false) ∧
+    (Auto.scanAll GenBank.Registry.default (miniGenBank ++ miniGenBank)).summary =
+      some ([(true, 0), (true, 0)], true) := by decide +kernel
+
+/-- non-vacuity of the hypotheses of `gb_scan_stops_at_fasta` and `scan_genbank_then_fasta`: `>a / AC` is
+not empty and does not begin with `LOCUS`, and `GenBankParser` (default registry, on the state the
+scanner's `Push` made) reads the minimal record from the front of `record ++ ">a\nAC\n"` and stops
+exactly in front of the `>` -/
+example : ([62, 97, 10, 65, 67, 10] : Bytes).isEmpty = false ∧
+    Auto.startsLocus [62, 97, 10, 65, 67, 10] = false ∧
+    ∃ r reg' stk', (GenBank.genbankParser GenBank.Registry.default).run'
+        ⟨miniGenBank ++ [62, 97, 10, 65, 67, 10], [miniGenBank ++ [62, 97, 10, 65, 67, 10]]⟩ =
+      (.ok (r, reg'), ⟨[62, 97, 10, 65, 67, 10], stk'⟩) := by
+  refine ⟨rfl, rfl, ?_⟩
+  have h : (match (GenBank.genbankParser GenBank.Registry.default).run'
+        ⟨miniGenBank ++ [62, 97, 10, 65, 67, 10], [miniGenBank ++ [62, 97, 10, 65, 67, 10]]⟩ with
+      | (.ok _, s') => s'.rest == [62, 97, 10, 65, 67, 10]
+      | _ => false) = true := by decide +kernel
+  rcases hrun : (GenBank.genbankParser GenBank.Registry.default).run'
+      ⟨miniGenBank ++ [62, 97, 10, 65, 67, 10], [miniGenBank ++ [62, 97, 10, 65, 67, 10]]⟩ with ⟨res, s'⟩
+  rw [hrun] at h
+  rcases res with e | ⟨r, reg'⟩
+  · cases h
+  · obtain ⟨rest, stk⟩ := s'
+    have h' : rest = [62, 97, 10, 65, 67, 10] := by simpa using h
+    subst h'
+    exact ⟨r, reg', stk, rfl⟩
+
+open Gts.Auto (Rec Out) in
+/-- **FASTA record, then GenBank (or any text without `>`).**  With `FastaParser` kept, a record's
+body runs to the next `>` or the end of input: a written FASTA record followed by a text `g` without
+`>` scans — for every registry — as ONE FASTA record whose residues are the record's residues
+followed by `g` with its line breaks removed; `Err()` is `nil`.  The GenBank record is neither
+recognised nor reported: it is silently read as residues. -/
+theorem scan_fasta_then_genbank (reg : GenBank.Registry) (d r g : Bytes) (hd : noCR d = true)
+    (hr : resOk r = true) (hg : g.all notGt = true) :
+    Auto.scanAll reg (fastaWrite d r ++ g) = .done [.fa (nl2sp d) (r ++ fastaBody g)] reg true := by
+  have hpar := Auto.parse_write_swallow d r g [fastaWrite d r ++ g] hd hr hg
+  have e : fastaWrite d r ++ g = 62 :: (nl2sp d ++ 10 :: wrapForce r width ++ [10] ++ g) := by
+    simp [fastaWrite]
+  have hl : Auto.startsLocus (fastaWrite d r ++ g) = false := by rw [e]; rfl
+  obtain ⟨rs', c, h1, h2⟩ := auto_real_eq_standin reg _ hl
+  have hs : scanAll true (fastaWrite d r ++ g) = .done [(nl2sp d, r ++ fastaBody g)] true := by
+    have hne0 : (fastaWrite d r ++ g).isEmpty = false := by rw [e]; rfl
+    have hne : ¬ ((fastaWrite d r ++ g).take 5 == [76, 79, 67, 85, 83]) = true := by
+      have : Auto.startsLocus (fastaWrite d r ++ g) = ((fastaWrite d r ++ g).take 5 == [76, 79, 67, 85, 83]) := rfl
+      rw [← this, hl]; exact Bool.false_ne_true
+    simp only [scanAll, scanFirstAuto, if_true, hne, hne0]
+    generalize fastaWrite d r ++ g = T at *
+    simp [run'_eq, bind_run, attempt_run, hpar, scanLoop]
+  have h5 : ScanOut.done rs' c = .done [(nl2sp d, r ++ fastaBody g)] true := h1.symm.trans hs
+  obtain ⟨h3, h4⟩ := ScanOut.done.inj h5
+  rw [h2, h3, h4]
+  simp only [Auto.faRecs, List.map]
+
+/-- non-vacuity of `scan_fasta_then_genbank`: `>d / AC` followed by the minimal GenBank record is one
+FASTA record whose residues are `AC` and the record's text without its two line feeds -/
+example : noCR [100] = true ∧ resOk [65, 67] = true ∧ miniGenBank.all notGt = true ∧
+    (Auto.scanAll GenBank.Registry.default (fastaWrite [100] [65, 67] ++ miniGenBank)).summary =
+      some ([(false, (miniGenBank.length : Int))], true) := by decide +kernel
+
+/-- **The fuels of the two scan loops are adequate** (so no theorem above is true because a loop ran
+out of fuel): a record that `GenBankParser` returns has consumed its LOCUS keyword, one that
+`FastaParser` returns its `>`, hence any two fuels above the number of bytes left give the same
+result — `Gts.Auto.scanFirst` passes `len + 1`. -/
+theorem gbLoop_fuel_stable (reg : GenBank.Registry) (s : PS) (hs : Sorted s.rest.length s.stk)
+    (n m : Nat) (hn : s.rest.length < n) (hm : s.rest.length < m) :
+    Auto.gbLoop n reg s = Auto.gbLoop m reg s :=
+  Auto.gbLoop_fuel n m reg s hs hn hm
+
+/-- see `gbLoop_fuel_stable` -/
+theorem faLoop_fuel_stable (reg : GenBank.Registry) (s : PS)
+    (n m : Nat) (hn : s.rest.length < n) (hm : s.rest.length < m) :
+    Auto.faLoop n reg s = Auto.faLoop m reg s :=
+  Auto.faLoop_fuel reg n m s hn hm
+
+/-- non-vacuity: the fresh state of a scanner is sorted, and 3 bytes are fewer than 4 and than 9 -/
+example : Sorted (PS.mk [62, 97, 10] []).rest.length (PS.mk [62, 97, 10] []).stk ∧
+    (PS.mk [62, 97, 10] []).rest.length < 4 ∧ (PS.mk [62, 97, 10] []).rest.length < 9 :=
+  ⟨trivial, by decide, by decide⟩
+
+/-- **Where the first `Scan` does NOT restore the position (a property of the code, confirmed on
+/repo by the op `auto.scan`).**  `GenBankParser` calls `state.Clear()` behind the LOCUS line, which
+also discards the position the scanner pushed; when the record fails after that, the scanner's `Pop`
+finds an empty stack and `FastaParser` is tried where `GenBankParser` gave up.  Witness: a LOCUS line
+with the unknown molecule `XNA`, then `>a / AC`: the scan returns the FASTA record `a / AC` without
+error, the LOCUS line is skipped silently. -/
+theorem auto_skips_broken_locus_witness :
+    (Auto.scanAll GenBank.Registry.default
+      (GenBank.bs "LOCUS       X                  0 bp    XNA     linear   UNA 01-JAN-2000\n>a\nAC\n")).summary =
+      some ([(false, 2)], true) := by decide +kernel
+
+/-! ### the CLI path `gts <cmd> -F fasta` (generated table `Gts/Gen/CliWriters.lean`, re-read from
+cmd/gts/*.go, seqio/filetype.go and seqio/writer.go on every run) -/
+
+/-- **Every subcommand that writes sequences declares `-F` / `--format` and hands it to
+`seqio.NewWriter`.**  For every function of cmd/gts that calls `seqio.NewWriter` or `WriteSeq` (facts
+from the AST): the option is `opt.String('F', "format", "", …)`; the file type given to every
+`NewWriter` call is one variable, assigned from `seqio.Detect(*output)` and then, under
+`if *format != ""`, from `seqio.ToFileType(*format)`, both before the writer is made; every `WriteSeq`
+goes to such a writer.  So a non-empty `-F` value decides the writer, whatever the output path says. -/
+theorem cli_format_reaches_writer :
+    ∀ w ∈ Gen.CliWriters.writers, CliWriters.declaresFormat w = true ∧ CliWriters.formatReachesWriter w = true := by
+  decide
+
+/-- the same as a report (what `bin/check` would print): nothing is missing -/
+theorem cli_format_report : CliWriters.report = [] := by decide
+
+/-- **`-F fasta` selects the FASTA writer, `-F gb` / `genbank` the GenBank writer, no `-F` and no
+known extension auto-detection** (the string switch of `seqio.ToFileType` and the FileType switch of
+`seqio.NewWriter`, as tables): the writer whose output the theorems above are about
+(`fastaWriteSeq`, `writer_cases`, `genbank_to_fasta_real`) is the one the command uses. -/
+theorem cli_fasta_selects_fasta_writer :
+    CliWriters.writerOf (CliWriters.fileTypeOf "fasta") = "FastaWriter" ∧
+    CliWriters.writerOf (CliWriters.fileTypeOf "gb") = "GenBankWriter" ∧
+    CliWriters.writerOf (CliWriters.fileTypeOf "genbank") = "GenBankWriter" ∧
+    CliWriters.writerOf (CliWriters.fileTypeOf "") = "AutoWriter" := by decide
+
+/-- non-vacuity: the table is not empty; it holds the subcommands the harness oracle `cli.fasta` runs -/
+example : (Gen.CliWriters.writers.map (·.name)).length ≥ 5 ∧
+    (["clear", "complement", "repair", "reverse", "sort"].all
+      (Gen.CliWriters.writers.map (·.name)).contains) = true := by decide
 
 end Gts.C17
